@@ -16,7 +16,12 @@ func main() {
 	res.Rule = "types: atoms (every scalar kind, boundary ranges) + every constructor applied to an element sub-pool (bounded-exhaustive over the " +
 		"listed choices) + seeded random types of depth 2-3, each built twice through the Go constructors; values: generic pool + boundary " +
 		"witnesses of every pool type + types as values; ALL ordered pairs (A,B) are evaluated; a pair is non-trivial when " +
-		"IsAssignable(A,B) holds, neither side is Any/Unit, and B has at least one instance in the value pool; distinct = distinct (A,B) recipes"
+		"IsAssignable(A,B) holds, neither side is Any/Unit, and B has at least one instance in the value pool; distinct = distinct (A,B) recipes. " +
+		"Outside the model fragment (direct check only): Data/RichData and user aliases (constructor route and recursive ones through parser + AddTypes) in " +
+		"every member position and in two-position Variants (also below an alias), Iterable over entry tuples against Structs with required / Optional[k] / " +
+		"implicitly optional keys, Enums that repeat a value, random types over all of it. Histories: clusters of related type objects kept alive " +
+		"(hand-made, one kind, related by acceptance) + the types inferred for their values; every other public operation on every argument tuple, then " +
+		"random long sequences; after each operation the answers are compared with those of separately built objects"
 	pcore.Do(func(c px.Context) {
 		if cfg.Replay != "" {
 			replay(cfg, res)
@@ -30,22 +35,37 @@ func main() {
 // excluded: the two exclusions the property names — Unit anywhere, and a Struct on the left with a Hash
 // type on the right (the by-specification rule may have fired, also when nested).
 func excluded(u *lat.Universe, a, b int) bool {
-	if lat.Contains(u.Dec[a], "Unit") || lat.Contains(u.Dec[b], "Unit") {
+	// (the recipe is looked at as well: the decoded structure does not show what is below an alias)
+	has := func(i int, kind string) bool { return lat.Contains(u.Dec[i], kind) || lat.SpecContains(u.Specs[i], kind) }
+	if has(a, "Unit") || has(b, "Unit") {
 		return true
 	}
-	if lat.Contains(u.Dec[a], "Struct") && (lat.Contains(u.Dec[b], "Hash")) {
+	if has(a, "Struct") && has(b, "Hash") {
 		return true
 	}
 	return false
 }
 
+// excludedSpec: the same exclusions, on recipes
+func excludedSpec(a, b *lat.Spec) bool {
+	if lat.SpecContains(a, "Unit") || lat.SpecContains(b, "Unit") {
+		return true
+	}
+	return lat.SpecContains(a, "Struct") && lat.SpecContains(b, "Hash")
+}
+
 func run(cfg *lib.Config, res *lib.Result) {
 	rng := lib.NewRng(cfg.Seed)
-	nRandom, coqAsg, coqInst := 250, 2500, 1500
+	nRandom, coqAsg, coqInst, nRandomX := 250, 2500, 1500, 200
 	if cfg.Thorough() {
-		nRandom, coqAsg, coqInst = 1500, 12000, 8000
+		nRandom, coqAsg, coqInst, nRandomX = 1500, 12000, 8000, 1200
 	}
-	u := lat.NewUniverse(rng, nRandom, 0)
+	// the families outside the Rocq model (direct check only): aliases in member positions, user aliases (also recursive
+	// ones), Iterable over entry tuples against Structs with optional keys, Enums that repeat a value; a separate
+	// generator so that the random types of the model fragment stay what they were
+	xr := lib.NewRng(cfg.Seed ^ 0x5eed01)
+	xt := lat.ExtTypes(xr, nRandomX, cfg.Thorough())
+	u := lat.NewUniverseWith(rng, nRandom, 0, xt, lat.ExtValues(xt))
 	u.FillInst()
 	u.FillAsg()
 	for _, c := range u.Crashes {
@@ -89,7 +109,7 @@ func run(cfg *lib.Config, res *lib.Result) {
 			for v := 0; v < nV; v++ {
 				if u.Inst[b][v] && !u.Inst[a][v] {
 					res.Violate(lib.Violation{Clause: "soundness",
-						What: fmt.Sprintf("%s accepts %s, and %s is an instance of the latter but not of the former", u.Text[a], u.Text[b], lat.ValText(u.V[v])),
+						What: fmt.Sprintf("%s accepts %s, and %s is an instance of the latter but not of the former%s", u.Text[a], u.Text[b], lat.ValText(u.V[v]), lat.Legend(u.Specs[a], u.Specs[b])),
 						Input: map[string]interface{}{"kind": "sound", "a": u.Specs[a], "b": u.Specs[b], "v": u.VSpec[v]},
 						Tags:  tags(u, a, b)})
 					break
@@ -97,6 +117,8 @@ func run(cfg *lib.Config, res *lib.Result) {
 			}
 		}
 	}
+	// ---- histories: the same questions on type objects that other public operations have touched
+	runHistories(cfg, res, u, lib.NewRng(cfg.Seed^0x5eed02), excludedSpec)
 	res.Sample(map[string]interface{}{"A": u.Text[3%nT], "B": u.Text[7%nT], "assignable": u.Asg[3%nT][7%nT]})
 	for i := 0; i < 4 && i < len(truePairs); i++ {
 		p := truePairs[(i*7919+13)%len(truePairs)]
@@ -172,7 +194,7 @@ func tags(u *lat.Universe, a, b int) []string {
 }
 
 func replay(cfg *lib.Config, res *lib.Result) {
-	for _, in := range lib.ReplayInputs(cfg.Replay) {
+	for _, in := range lat.ReplayInputs(cfg.Replay) {
 		var x struct {
 			Kind string     `json:"kind"`
 			A    *lat.Spec  `json:"a"`
@@ -183,6 +205,8 @@ func replay(cfg *lib.Config, res *lib.Result) {
 		lib.Remarshal(in, &x)
 		res.Evaluations++
 		switch x.Kind {
+		case "hist":
+			replayHist(in, res)
 		case "sound":
 			a, b, v := x.A.Build(), x.B.Build(), x.V.Build()
 			asg := px.IsAssignable(a, b)
